@@ -15,7 +15,7 @@ pub fn enc_from(e: u16) -> <ToyKemLin as KemTrait>::EncappedKey {
     <<ToyKemLin as KemTrait>::EncappedKey as Deserializable>::from_bytes(&e.to_be_bytes()).unwrap()
 }
 
-//@h name=c03_l1_encap_base tier=quick mode=func timeout=600 desc="real encap_with_eph (unauthenticated) of DHKEM(XorDh,LinKdf) == RFC 9180 Encap for every recipient public key and ephemeral key: same shared secret, enc = SerializePublicKey(pk(skE)), EncapError exactly when the DH result is rejected; the honest recipient's decap returns the same secret" bounds="all 2^16 pkR x 2^16 skE; model hash LinHash (Nh=8); unwind 20"
+//@h name=c03_l1_encap_base tier=quick mode=func also=C02 timeout=600 desc="real encap_with_eph (unauthenticated) of DHKEM(XorDh,LinKdf) == RFC 9180 Encap for every recipient public key and ephemeral key: same shared secret, enc = SerializePublicKey(pk(skE)), EncapError exactly when the DH result is rejected; the honest recipient's decap returns the same secret" bounds="all 2^16 pkR x 2^16 skE; model hash LinHash (Nh=8); unwind 20"
 #[kani::proof]
 #[kani::unwind(20)]
 #[kani::stub(zeroize::optimization_barrier, noop_barrier)]
@@ -35,7 +35,7 @@ pub fn c03_l1_encap_base() {
     kani::cover!(sk_e ^ pk_r ^ rfc::XOR_G == 0, "DH failure path reached");
 }
 
-//@h name=c03_l1_decap_base tier=quick mode=func timeout=600 desc="real decap (unauthenticated) == RFC 9180 Decap for every encapsulated key and recipient private key (not only honest ones); DecapError exactly when the DH result is rejected; pk(skR) serialisation as in the RFC" bounds="all 2^16 enc x 2^16 skR; LinHash; unwind 20"
+//@h name=c03_l1_decap_base tier=quick mode=func also=C02 timeout=600 desc="real decap (unauthenticated) == RFC 9180 Decap for every encapsulated key and recipient private key (not only honest ones); DecapError exactly when the DH result is rejected; pk(skR) serialisation as in the RFC" bounds="all 2^16 enc x 2^16 skR; LinHash; unwind 20"
 #[kani::proof]
 #[kani::unwind(20)]
 #[kani::stub(zeroize::optimization_barrier, noop_barrier)]
@@ -53,7 +53,7 @@ pub fn c03_l1_decap_base() {
     assert!(eq_bytes(&pk.to_bytes(), <G8 as rfc::RefGroup>::ser(<G8 as rfc::RefGroup>::pk(sk_r)).as_slice()));
 }
 
-//@h name=c03_l1_encap_auth tier=quick mode=func timeout=900 desc="real encap_with_eph with a sender identity key pair == RFC 9180 AuthEncap: dh = DH(skE,pkR)||DH(skS,pkR), kem_context = enc||pkRm||pkSm; EncapError iff either DH is rejected" bounds="all pkR, skE, skS (2^48); pkS = pk(skS); LinHash; unwind 20"
+//@h name=c03_l1_encap_auth tier=quick mode=func also=C02 timeout=900 desc="real encap_with_eph with a sender identity key pair == RFC 9180 AuthEncap: dh = DH(skE,pkR)||DH(skS,pkR), kem_context = enc||pkRm||pkSm; EncapError iff either DH is rejected" bounds="all pkR, skE, skS (2^48); pkS = pk(skS); LinHash; unwind 20"
 #[kani::proof]
 #[kani::unwind(20)]
 #[kani::stub(zeroize::optimization_barrier, noop_barrier)]
@@ -76,7 +76,7 @@ pub fn c03_l1_encap_auth() {
     kani::cover!(sk_e ^ pk_r ^ rfc::XOR_G != 0 && sk_s ^ pk_r ^ rfc::XOR_G == 0, "second DH fails");
 }
 
-//@h name=c03_l1_decap_auth tier=quick mode=func timeout=900 desc="real decap with an expected sender public key == RFC 9180 AuthDecap: dh = DH(skR,pkE)||DH(skR,pkS), kem_context = enc||pk(skR)||pkS; DecapError iff either DH is rejected" bounds="all enc, skR, pkS (2^48); LinHash; unwind 20"
+//@h name=c03_l1_decap_auth tier=quick mode=func also=C02 timeout=900 desc="real decap with an expected sender public key == RFC 9180 AuthDecap: dh = DH(skR,pkE)||DH(skR,pkS), kem_context = enc||pk(skR)||pkS; DecapError iff either DH is rejected" bounds="all enc, skR, pkS (2^48); LinHash; unwind 20"
 #[kani::proof]
 #[kani::unwind(20)]
 #[kani::stub(zeroize::optimization_barrier, noop_barrier)]
@@ -96,7 +96,7 @@ pub fn c03_l1_decap_auth() {
 
 const IKM: usize = 4;
 
-//@h name=c03_l2_derive_keypair_toy tier=quick mode=func timeout=600 desc="Kem::derive_keypair of the model KEM == RFC 9180 7.1.3 DeriveKeyPair (dkp_prk / sk labels, KEM suite id, empty info, L=Nsk) and pk = pk(sk)" bounds="ikm 0..=4 symbolic bytes; LinHash; unwind 20"
+//@h name=c03_l2_derive_keypair_toy tier=quick mode=func also=C02 timeout=600 desc="Kem::derive_keypair of the model KEM == RFC 9180 7.1.3 DeriveKeyPair (dkp_prk / sk labels, KEM suite id, empty info, L=Nsk) and pk = pk(sk)" bounds="ikm 0..=4 symbolic bytes; LinHash; unwind 20"
 #[kani::proof]
 #[kani::unwind(20)]
 #[kani::stub(zeroize::optimization_barrier, noop_barrier)]
@@ -114,7 +114,7 @@ pub fn c03_l2_derive_keypair_toy() {
     kani::cover!(n == IKM, "longest ikm");
 }
 
-//@h name=c03_l3_gen_keypair_toy tier=quick mode=func timeout=600 desc="Kem::gen_keypair(rng) == derive_keypair(the Nsk bytes drawn): exactly Nsk bytes are drawn from the caller's RNG, in one fill_bytes call" bounds="all RNG outputs; model KEM Nsk=2; LinHash; unwind 20"
+//@h name=c03_l3_gen_keypair_toy tier=quick mode=func also=C02 timeout=600 desc="Kem::gen_keypair(rng) == derive_keypair(the Nsk bytes drawn): exactly Nsk bytes are drawn from the caller's RNG, in one fill_bytes call" bounds="all RNG outputs; model KEM Nsk=2; LinHash; unwind 20"
 #[kani::proof]
 #[kani::unwind(20)]
 #[kani::stub(zeroize::optimization_barrier, noop_barrier)]
@@ -129,7 +129,7 @@ pub fn c03_l3_gen_keypair_toy() {
     assert!(pk == ToyKemLin::sk_to_pk(&sk));
 }
 
-//@h name=c03_l3_encap_rng_toy tier=quick mode=func timeout=900 desc="Kem::encap(rng): ephemeral key = DeriveKeyPair(the Nsk bytes drawn), exactly Nsk bytes drawn once; result == RFC 9180 Encap with that key (plain and auth chosen symbolically)" bounds="all RNG outputs, pkR, skS; auth symbolic; LinHash; unwind 20"
+//@h name=c03_l3_encap_rng_toy tier=quick mode=func also=C02 timeout=900 desc="Kem::encap(rng): ephemeral key = DeriveKeyPair(the Nsk bytes drawn), exactly Nsk bytes drawn once; result == RFC 9180 Encap with that key (plain and auth chosen symbolically)" bounds="all RNG outputs, pkR, skS; auth symbolic; LinHash; unwind 20"
 #[kani::proof]
 #[kani::unwind(20)]
 #[kani::stub(zeroize::optimization_barrier, noop_barrier)]
